@@ -187,12 +187,18 @@ def harness(ns, params):
             las.sections["Parameter"].append(HeaderItem(names[1], units[1], values[1], descrs[1]))
             las.sections["Other"] = "free text"
             las.index_unit = "M"
+            las.index_initial = np.array([0.5, 1.5, 2.5])  # as after read() followed by an edit of the index
+            las.encoding = "utf-8"
             cp = roundtrip(ns, las, method)
             obl = [("lasfile-same-section-keys", list(cp.sections.keys()) == list(las.sections.keys())), ("lasfile-index-unit", cp.index_unit == las.index_unit),
+                   ("lasfile-same-attributes", sorted(vars(cp).keys()) == sorted(vars(las).keys())),
                    ("lasfile-copy-is-new-object", cp is not las and cp.sections is not las.sections)]
             for key in las.sections:
                 if key in cp.sections:
                     obl.append(("lasfile-section-%s-equal" % key, section_eq(las.sections[key], cp.sections[key])))
+            for attr, val in vars(las).items():
+                if attr != "sections" and attr in vars(cp):
+                    obl.append(("lasfile-attribute-%s-equal" % attr, _eqv(val, vars(cp)[attr])))
             core.oblige_all(obl)
             snapk = [(it.mnemonic, it.value) for it in list(list.__iter__(las.curves))]
             cp.curves[0].value = "mutated" if len(list(list.__iter__(cp.curves))) else None
@@ -284,9 +290,19 @@ def replay(i):
         las.sections["Parameter"].append(lasio.HeaderItem(names[1], units[1], values[1], descrs[1]))
         las.sections["Other"] = "free text"
         las.index_unit = "M"
+        las.index_initial = np.array([0.5, 1.5, 2.5])
+        las.encoding = "utf-8"
         cp = rt(las)
         if list(cp.sections.keys()) != list(las.sections.keys()) or cp.index_unit != las.index_unit:
             problems.append("LASFile copy has different sections/index unit")
+        if sorted(vars(cp)) != sorted(vars(las)):
+            problems.append("LASFile copy has attributes %r, original %r" % (sorted(vars(cp)), sorted(vars(las))))
+        for attr, val in vars(las).items():
+            if attr != "sections" and attr in vars(cp):
+                o = vars(cp)[attr]
+                same = (isinstance(val, np.ndarray) and isinstance(o, np.ndarray) and np.array_equal(val, o)) or (not isinstance(val, np.ndarray) and val == o)
+                if not same:
+                    problems.append("LASFile attribute %s: %r in the original, %r in the copy" % (attr, val, o))
         for key in las.sections:
             if key in cp.sections and not seq(las.sections[key], cp.sections[key]):
                 problems.append("section %s differs in the copy: %r vs %r" % (key, las.sections[key], cp.sections[key]))
